@@ -58,7 +58,7 @@ def _worker(args):
     fn, config, tier, seed = args
     sys.setrecursionlimit(50000)
     t0 = time.time()
-    limit = int(os.environ.get("VERIF_CONFIG_TIMEOUT", "0") or 0) or (config.get("config_timeout") if isinstance(config, dict) else None) or 1500
+    limit = int(os.environ.get("VERIF_CONFIG_TIMEOUT", "0") or 0) or (config.get("config_timeout") if isinstance(config, dict) else None) or 420
     try:
         signal.signal(signal.SIGALRM, _on_alarm)
         signal.alarm(int(limit))
@@ -124,6 +124,8 @@ class Check:
             results = pool.imap_unordered(_worker, jobs, chunksize)
         for recs, secs, err in results:
             self.records.extend(recs)
+            if recs:
+                self.config_times[recs[0].get("config", "?")] = round(secs, 1)
             if err:
                 self.errors.append(err)
         if procs > 1:
@@ -255,6 +257,8 @@ class Check:
             f"known={len(seen_known)} violations={len(violations)} inconclusive={len(inconclusive)} "
             f"ground={len(ground)} errors={len(harness_errors)} wall={wall:.1f}s solver={solver_seconds:.1f}s"
         )
+        if os.environ.get("VERIF_TIMES"):
+            print("slowest configurations:", sorted(self.config_times.items(), key=lambda kv: -kv[1])[:6])
         if violations:
             sys.exit(EXIT_VIOLATION)
         if harness_errors:
